@@ -17,7 +17,8 @@ MonInit == tid \in 1..Len(Obs)
 MonNext == UNCHANGED tid
 Is(k) == o.kind = k /\ o.host = "ok"
 
-HostSurvives == o.host = "ok" \/ (TolImapLoss /\ FALSE)
+ExpectedDeath == o.kind = "budget" /\ sc.variant = "exceed"
+HostSurvives == o.host = "ok" \/ ExpectedDeath
 (* C04: the dying worker's job, and only it, fails with WorkerLostError naming the status,  *)
 (* between its lost-worker timeout and that timeout plus one supervision period             *)
 LossReported == (Is("loss") /\ o.victim_found) =>
@@ -45,5 +46,11 @@ SendFailSlot == Is("sendfail") => (o.slots_free = o.slots \/ TolSendFailSlot)
 (* C09 *)
 RecycleHarmless == Is("recycle") =>
     (o.outcome = "ok" /\ o.items /\ o.max_per_worker <= o.quota /\ o.max_per_worker >= 1 /\ o.secs10 < 50 + Slack10)
+(* C11 on a real pool with its supervisor thread: max_restarts replacements are admitted, the next
+   abnormal exit raises RestartFreqExceeded (which takes the host down with SIGTERM) instead of
+   forking; an accepted job starts the count afresh *)
+BudgetAckResets == (Is("budget") /\ sc.variant = "ack") =>
+    (o.done /\ o.init_deaths = 2 * (sc.maxr - 1) /\ o.job_ok)
+BudgetStops == ExpectedDeath => (o.host = "died:-15" /\ o.init_deaths = sc.maxr)
 DiscardNoHoldUp == Is("discard") => (o.outcome = "ok" /\ (o.secs10 < 50 + Slack10 \/ TolDiscardCredit))
 =============================================================================
